@@ -19,7 +19,7 @@ CHECKS = {
 SVM = "Trusted base: svm-lite (native loader/CPI/sysvar emulation, DESIGN §2.1) and the shims; the token programs are the real SPL processors. Bounded: alphabets, roots and the completed depth are listed in the evidence file; a capped depth is reported as such."
 CHECKS.update({
  "C01": (A, "model_checking",
-   "explicit-state search: all op sequences up to a depth bound on the real program; invariant on every state; drains in all orders; swap-only histories in ledger mode",
+   "explicit-state search: all op sequences up to a depth bound on the real program; invariant on every state; drains in all orders; swap-only histories in ledger mode; the alphabet includes requests the program must refuse (inverted ranges, 2^128-x withdrawal amounts, neighbouring tick arrays) whose acceptance would open states the invariant then judges",
    "Every reachable state of every increase/decrease/swap/update/collect sequence up to the completed depth (5 roots, 2-4 worlds, fixed+dynamic arrays) satisfies vault >= protocol fees + position fees (after a real update) + exact withdrawable amounts; closing out all positions and protocol fees succeeds in every order with real token transfers; no swap-only history leaves the trader ahead.",
    SVM, "DESIGN.md §3 C01"),
  "C03": (A, "model_checking",
@@ -27,11 +27,11 @@ CHECKS.update({
    "Every swap transition from every state reached within the depth bound honours amount, direction, bound and limit; partial fills end exactly on the limit; exact-out without limit never partially fills; success/failure flips exactly at the realised threshold.",
    SVM, "DESIGN.md §3 C03"),
  "C05": (A, "model_checking",
-   "explicit-state search; state invariant with independent decoders of pool, positions, fixed and dynamic tick arrays",
+   "explicit-state search; state invariant with independent decoders of pool, positions, fixed and dynamic tick arrays; must-refuse requests (wrong tick array for a bound, re-initialisation of an existing array) are part of the alphabet",
    "In every reachable state within the depth bound pool.liquidity equals the sum over covering positions and every tick's net/gross/initialized equal the sums over bounding positions, in both encodings, incl. shared bounds, full range, landing on ticks, reaching price bounds.",
    SVM, "DESIGN.md §3 C05"),
  "C06": (A, "model_checking",
-   "explicit-state search; per-swap-step oracle from the H2 trace + totals from real balances/accounts + emitted event",
+   "explicit-state search; per-swap-step oracle from the H2 trace (rate and in-range liquidity re-derived from the pool and the positions) + totals from real balances/accounts + emitted event + conservation of what the positions can newly claim (real updates on pre/post copies)",
    "Every swap transition within the depth bound splits exactly as stated (per-step fee, protocol cut, growth; trader debit/credit; Traded event); every collect_protocol_fees pays exactly what is owed and resets it; fee / protocol rates varied inside the search.",
    SVM + " Hook H2 is trusted to record the values the swap loop used.", "DESIGN.md §3 C06"),
  "C08": (A, "model_checking",
@@ -62,18 +62,18 @@ CHECKS.update({
    "For every op sequence up to the completed depth (swaps across/onto/short of bounds both ways, liquidity changes incl. shared and de-initialised bounds, updates, collects; accumulators at 0, mid-range and just below wrap-around; pool starting on a bound): collected+owed of every position is at most its exact pro-rata entitlement and short of it by less than L/2^64 per credited step + 1 per update.",
    SVM + " Hook H2 supplies per-step liquidity/fee and crossings; the active set is re-derived from position ranges and cross-checked against each step's liquidity.", "DESIGN.md §3 C07"),
  "C11": (A, "model_checking",
-   "explicit-state search in ledger mode with the harness clock: exact rational shadow ledger of reward entitlements per position and reward index; enabledness oracles for emission changes, collects and earlier timestamps",
+   "explicit-state search in ledger mode with the harness clock: exact rational shadow ledgers of reward entitlements per position and reward index (upper bound driven by the harness clock alone, lower bound by the harness\'s own record of settling instructions); enabledness oracles for emission changes, collects and earlier timestamps",
    "For every op sequence up to the completed depth (clock steps, swaps moving positions in/out of range, liquidity changes, updates, collects against a vault holding exactly one day of emissions, emission changes incl. refused ones, late reward initialisation): credited rewards are within the two-sided rounding bound of the exact share; nothing accrues at zero liquidity or for uninitialised rewards; earlier timestamps fail; collect pays min(owed, vault); emission changes settle at the old rate and need a day of emissions.",
    SVM, "DESIGN.md §3 C11"),
  "C15": (A, "fault_enumeration",
-   "complete substitution matrix: every account slot of every fund-moving instruction x every same-typed foreign account (twin universe, sibling pool/position/reward index/token program), executed on the real program",
+   "complete substitution matrix: every account slot of every fund-moving instruction (plus update_fees_and_rewards and set_reward_emissions) x every same-typed foreign account (twin universe, sibling pool / position incl. never-funded ones / reward index / token program), executed on the real program",
    "Every non-exempt substitution is rejected with the ledger unchanged (16 instructions, SPL and mixed Token-2022 variants, 4-6 root states); exemptions are listed with justification in the evidence.",
    SVM + " Only rejection by some layer is required (a constraint duplicated by the token program cannot be isolated by outcome).", "DESIGN.md §3 C15"),
 })
 
 CHECKS.update({
  "C04": (A, "fault_enumeration",
-   "complete fault matrix on the real program: every privileged instruction (table checked against lib.rs and the compiled dispatcher) x every wrong-signer / missing-signature / delegate-amount / token-account-state variant",
+   "complete fault matrix on the real program: every privileged instruction (table checked against lib.rs and the compiled dispatcher) x every wrong-signer / missing-signature / delegate-amount / token-account-state variant, authorities rotated and handed to the all-zero key, reversed attacks (the attacker\'s own object + the victim\'s lock config / bundle account)",
    "All 50 privileged instructions (18 position-token, 32 stored-authority; Anchor- and Pinocchio-dispatched; SPL and Token-2022 flavours; fresh/funded/emptied/locked/bundled states): the instruction succeeds only if the holder, its exactly-one-token delegate or the stored authority signed; every other variant fails and leaves the ledger byte-identical.",
    SVM + " The 16 instructions classified as not privileged are listed with reasons in the evidence; an unclassified instruction fails the run.", "DESIGN.md §3 C04"),
  "C18": (A, "model_checking",
@@ -84,14 +84,14 @@ CHECKS.update({
 
 CHECKS.update({
  "C10": (A, "model_checking",
-   "exhaustive enumeration of initialized-tick layouts (all subsets up to a size bound of 15 boundary slots x 3 arrays) x start states x swap sizes x packagings, every swap executed on the real program; reference traversal from the H2 crossing record; packaging differential",
+   "exhaustive enumeration of initialized-tick layouts (all subsets up to a size bound of 15 boundary slots x 3 arrays) x start states x swap sizes x packagings, every swap executed on the real program; reference traversal from the H2 crossing record; packaging differential; swap histories against an abstract tick set; two-hop packagings (a leg\'s arrays as supplemental accounts)",
    "For every layout / start state (between ticks, on a tick, shifted) / direction / size in the enumerated space: the crossing record equals exactly the initialized ticks between start and end price, in order, once each; outcome identical across fixed/dynamic/uncreated arrays, account permutations, duplicates and supplemental arrays; arrays that do not reach far enough fail, foreign-pool arrays are rejected. 6 worlds incl. arrays at both tick bounds and a full-range-only pool.",
    SVM + " Hook H2 is trusted for the crossing record; candidate ticks sit on five slots per array; an internal wall cap may cut the largest layouts (then exhaustive=false is reported).", "DESIGN.md §3 C10"),
 })
 
 CHECKS.update({
  "C14": (A, "model_checking",
-   "explicit-state search over swap / clock sequences on adaptive-fee pools with a per-step oracle from the H2 trace against a reference schedule without the skip optimisation; control-factor-0 twin differential; function-level bounded-exhaustive enumeration of the fee state machine",
+   "explicit-state search over swap / clock sequences on adaptive-fee pools with a per-step oracle from the H2 trace against a reference schedule without the skip optimisation; control-factor-0 twin differential; function-level bounded-exhaustive enumeration of the fee state machine incl. every accumulator at which the uncapped rate crosses a multiple of 2^32; first swap in the life of a pool created away from tick group 0",
    "Every recorded step of every swap in every sequence within the depth bound charges the reference rate of every tick group it touches, within [static, 10%], accumulator <= max; stored reference / accumulator / major-swap timestamp follow the documented rules; control factor 0 == static-fee twin; trading refused before the enable time. Function level: 1728 validated constant sets x variable states x elapsed classes, loop walks incl. skipped, saturated and boundary endings.",
    SVM + " Hook H2 is trusted for per-step rate, bounded target and skip flag. Tick spacing 64 and 4 constant sets at instruction level; the wide constant/variable quantifier is carried by the function-level walks.", "DESIGN.md §3 C14"),
 })
